@@ -105,9 +105,9 @@ func init() {
 			js = append(js, sites(withSumHash(job(pkgCore, "HarnessC06Refused", 0, 3, 1, 0)), ms...), sites(withSumHash(job(pkgCore, "HarnessC06Refused", 1, 2, 1, 0)), ms...), sites(withSumHash(job(pkgCore, "HarnessC06Refused", 2, 2, 1, 1)), ms...))
 			// splitting has no memory: a long history of other splits first (thorough: long enough to wrap 16-bit counters)
 			if tier == "thorough" {
-				js = append(js, instrs(noMapOrder(job(pkgCore, "HarnessC06History", 70000)), 600_000_000))
+				js = append(js, instrs(noMapOrder(job(pkgCore, "HarnessC06History", 65534, -1)), 600_000_000), instrs(noMapOrder(job(pkgCore, "HarnessC06History", 65535, 0)), 600_000_000), instrs(noMapOrder(job(pkgCore, "HarnessC06History", 65536, 0)), 600_000_000), instrs(noMapOrder(job(pkgCore, "HarnessC06History", 70000, 0)), 600_000_000))
 			} else {
-				js = append(js, instrs(noMapOrder(job(pkgCore, "HarnessC06History", 3000)), 40_000_000))
+				js = append(js, instrs(noMapOrder(job(pkgCore, "HarnessC06History", 65534, 0)), 600_000_000))
 			}
 			// the real CRC/hash-tag code instead of its specification
 			js = append(js, sites(job(pkgCore, "HarnessC06", 0, 2, 1, 0), ms...), sites(job(pkgCore, "HarnessC06", 0, 2, 3, 0), ms...), sites(job(pkgCore, "HarnessC06", 2, 2, 1, 1), ms...), sites(job(pkgCore, "HarnessC06", 1, 3, 1, 0), ms...))
@@ -120,7 +120,7 @@ func init() {
 			if tier == "thorough" {
 				return "MGET/DEL/MSET with 1..5 keys, every key 0..3 arbitrary bytes (so duplicates, empty keys, {tags} and real slot collisions occur), values 0..2 bytes, any letter case of the command name; all iteration orders of the per-slot map (<=3 entries: all permutations, above: rotations) at the fragment builders"
 			}
-			return "MGET/DEL/MSET with 1..3 keys, every key 0, 1 or 3 arbitrary bytes (duplicates, empty keys, {tags}, slot collisions), values 0..2 bytes, any letter case; all iteration orders of the per-slot map at the fragment builders; request objects recycled after a wider or a refused multi-key request; a three-slot request after 3000 (thorough 70000) other splits"
+			return "MGET/DEL/MSET with 1..3 keys, every key 0, 1 or 3 arbitrary bytes (duplicates, empty keys, {tags}, slot collisions), values 0..2 bytes, any letter case; all iteration orders of the per-slot map at the fragment builders; request objects recycled after a wider or a refused multi-key request; a four-slot request after 65534 other splits that do not touch one of its slots (thorough: 65534, 65535, 65536 and 70000 - the distances at which a 16-bit generation counter comes round again)"
 		},
 		Assumptions: []string{"in the jobs marked H=spec hashkit.Hash is replaced by the key-slot specification (justified by C05); the other jobs run the real CRC code", "map iteration order is explored only inside CRespCodec.MGet/Del/MSet (insertion order elsewhere)"},
 		Stubs:       []string{stubWorld},
